@@ -121,6 +121,8 @@ impl SchemaDocumentExtension for schema::Document {
             static ref DEFAULT_SCHEMA_DEF: schema::SchemaDefinition = {
                 schema::SchemaDefinition {
                     query: Some("Query".to_string()),
+                    mutation: Some("Mutation".to_string()),
+                    subscription: Some("Subscription".to_string()),
                     ..Default::default()
                 }
             };
